@@ -352,7 +352,9 @@ def rule_cli_check(rep, crate):
     fn = crate.one(r'^main$')
     if not rep.anchor(rid, 'fn logos_cli::main', fn is not None):
         return
-    calls = find_calls(fn, r'eq_ignore_newlines$')
+    calls = []
+    for f in crate.reachable_fns([fn]).values():
+        calls += find_calls(f, r'eq_ignore_newlines$')
     rep.inst(rid, 'main:eq_ignore_newlines', detail=len(calls))
     if not calls:
         rep.viol(rid, 'cli:no-compare', 'main no longer calls eq_ignore_newlines', loc(fn))
